@@ -103,7 +103,15 @@ def write_nt(quads, style=None, quadformat=False):
         parts = [nt_term(s, st), nt_term(p, st), nt_term(o, st)]
         if g is not None:
             parts.append(nt_term(g, st))
-        line = st.choice(["", "", " ", "\t"]) + ws.join(parts) + st.choice([" .", " .", ".", "\t."])
+        if st.random() < 0.15:
+            # no white space at all where a term ends in '>' or '"' (the delimiter says where it ends)
+            body = ""
+            for j, part in enumerate(parts):
+                body += part + ("" if part[-1] in '>"' or j == len(parts) - 1 else ws)
+            body = body if body.endswith(ws) or parts[-1][-1] in '>"' else body
+        else:
+            body = ws.join(parts)
+        line = st.choice(["", "", " ", "\t"]) + body + st.choice([" .", " .", ".", "\t."])
         if st.random() < 0.15:
             line += " # comment " + st.choice(["", "<x> \"y\" ."])
         lines.append(line)
@@ -164,6 +172,17 @@ class _Ttl:
         self.prefixes = {}  # ns -> prefix
         self.base = None
         self.ext_base = ext_base  # a base the caller of parse() supplies (publicID): the document does not declare it
+        # blank nodes that can be written without a label: used once, as an object only ([]), or as the subject of statements
+        # of one graph only and nowhere else ([] p o ; ...)
+        occ = {}
+        for q in quads:
+            for pos, t in enumerate(q):
+                if t is not None and t[0] == "b":
+                    occ.setdefault(t[1], []).append((pos, json.dumps(q[3])))
+        self.anon_obj = {b for b, o in occ.items() if len(o) == 1 and o[0][0] == 2}
+        self.anon_subj = {b for b, o in occ.items() if all(pos == 0 for pos, _ in o) and len({gk for _, gk in o}) == 1}
+        self.occ_count = {b: len(o) for b, o in occ.items()}
+        self.use_anon = st.random() < 0.5
         nss = []
         for q in quads:
             for t in q:
@@ -227,11 +246,13 @@ class _Ttl:
                 return "<" + (iri[len(origin) :] if st.random() < 0.7 else iri[iri.find("//") :]) + ">"
         return _nt_iri(iri, st)
 
-    def term(self, t, predicate=False):
+    def term(self, t, predicate=False, position=None):
         st = self.st
         if t[0] == "u":
             return self.iri(t[1], predicate)
         if t[0] == "b":
+            if self.use_anon and ((position == "o" and t[1] in self.anon_obj) or (position == "s1" and t[1] in self.anon_subj)) and st.random() < 0.7:
+                return st.choice(["[]", "[ ]"])
             return "_:" + t[1]
         lex, lang, dt = t[1], (t[2] if len(t) > 2 else None), (t[3] if len(t) > 3 else None)
         if dt == XSD + "integer" and lex.lstrip("+-").isdigit() and st.random() < 0.6:
@@ -274,7 +295,7 @@ class _Ttl:
                 self.base, self.base_spelled = new, None
             if st.random() < 0.35:
                 for p, o in pos:  # one statement per triple
-                    out.append(f"{indent}{self.term(s)} {self.term(p, True)} {self.term(o)} .")
+                    out.append(f"{indent}{self.term(s)} {self.term(p, True)} {self.term(o, position='o')} .")
                 continue
             by_p = {}
             porder = []
@@ -288,10 +309,12 @@ class _Ttl:
             for kp in porder:
                 p, os_ = by_p[kp]
                 sep = st.choice([", ", " ,\n" + indent + "        ", ","])
-                parts.append(self.term(p, True) + " " + sep.join(self.term(o) for o in os_))
+                parts.append(self.term(p, True) + " " + sep.join(self.term(o, position="o") for o in os_))
             semi = st.choice([" ;\n" + indent + "    ", "; ", " ; "])
             tail = st.choice([" .", ".", " ;\n" + indent + ".", " ; ."])
-            out.append(f"{indent}{self.term(s)} " + semi.join(parts) + tail)
+            # (without a label only if every statement about the node is in this very statement)
+            whole = s[0] == "b" and len(pos) == self.occ_count.get(s[1])
+            out.append(f"{indent}{self.term(s, position='s1' if whole else None)} " + semi.join(parts) + tail)
             if st.random() < 0.15:
                 out.append(indent + "# comment . <x> ;")
         return out
@@ -331,11 +354,11 @@ def write_n3(quads, style=None):
     lines = w.header() + [""]
     # statements one per triple so that the formula really sits between uses of a label
     for s, p, o in ts[:cut]:
-        lines.append(f"{w.term(s)} {w.term(p, True)} {w.term(o)} .")
+        lines.append(f"{w.term(s)} {w.term(p, True)} {w.term(o, position='o')} .")
     if style is None or st.random() < 0.7:
         lines += formula
     for s, p, o in ts[cut:]:
-        lines.append(f"{w.term(s)} {w.term(p, True)} {w.term(o)} .")
+        lines.append(f"{w.term(s)} {w.term(p, True)} {w.term(o, position='o')} .")
     return "\n".join(lines) + "\n"
 
 
